@@ -3,6 +3,8 @@ from . import batcher
 
 
 def run(chk):
+    from .common import per_instance_state_of_modules
+    per_instance_state_of_modules(chk, "C05.classes.state_is_per_instance", ['state'])   # no object created in a class body: instances share no mutable state through the class
     chk.assume("G: queue.Queue is a linearizable FIFO; hand-over order = order of put on the main queue; any number of producers may put at any time (arrivals havoc at every get/empty)")
     chk.assume("time.time() is an arbitrary non-decreasing real; the stop Event, once set, stays set")
     chk.assume("_calculate_operation_size(q) >= 0 and 0 for empty checkpoints (trusted arithmetic summary of json.dumps length)")
